@@ -40,6 +40,11 @@ CHECKS = {
         text="Macro.tla enumerates call-macro argument lists (40 segments incl. bracket groups, strings with commas/brackets, f-strings, keywords, invalid Python, comments/newlines in brackets x blanks x trailing comma x 8 hosts x followers), subprocess-macro bodies x 4 forms x paddings, and with-macro blocks (line trees up to 3-4 lines, nested indentation, blank/comment lines, 3 indentation units, nested in an if block, one-line form); the strings found in the real call_macro / enter_macro / subproc_* call must equal the model's expectation and the follower statement must parse as on its own.",
         note="Oracle is the model. Bounded by MaxArgs/MaxSegs/MaxLines per configuration. Two known findings (with! block starting with a comment; backtick/f-string in a subprocess-macro body).",
         ref="5/C07"),
+    "C14": dict(
+        technique="TLC enumeration of statement sequences from StmtSeq.tla -> composition law checked on the real parser; tree pairs (whole vs shifted parts) trace-validated by TLC (AstEq.tla)",
+        text="StmtSeq.tla lists 55 complete statement forms (Python simple/compound, multi-line tokens, comment/blank lines, every xonsh statement form incl. empty macros and path-literal concatenations); TLC enumerates every sequence of up to 2 (all kinds) / 3 (xonsh-heavy subset) kinds in quick, 3 / 4 in thorough; the body of the concatenation must equal the bodies of the parts with shifted line numbers, positions included.",
+        note="Reference = the same parser on each part alone (the property's relation). One known finding (blank/comment lines after a with! block join its body).",
+        ref="5/C14"),
     "C08": dict(
         technique="trace validation: real token streams checked by TLC against the TokStream.tla law",
         text="Every finished token stream of the real tokenizer on the TLC-generated input spaces (CharGen sub-alphabets, soup, corpus x layouts) is validated by TLC against TokStream.tla (text=slice, order, gaps only indentation/continuation, line closure, INDENT/DEDENT balance, single ENDMARKER); the first failing clause is named.",
